@@ -128,7 +128,7 @@ def oracle(ctx: Ctx, res) -> None:
 
 
 def run(ctx: Ctx) -> None:
-    total = 200 if ctx.quick else 4000
+    total = 200 if ctx.quick else 3000
     rule_lists = 2 if ctx.quick else 3
     batch = 350
     done = 0
